@@ -319,6 +319,35 @@ func (c *Cluster) ExecOp(addr string, regionName []byte, kind string, row []byte
 	return OpResult{}
 }
 
+const (
+	ClsMasterStopped  = "org.apache.hadoop.hbase.exceptions.MasterStoppedException"
+	ClsNotRunningYet  = "org.apache.hadoop.hbase.ipc.ServerNotRunningYetException"
+	ClsPleaseHold     = "org.apache.hadoop.hbase.PleaseHoldException"
+)
+
+// ExecMaster executes one administrative call on the server at addr. Only the
+// active master serves it; a server that is not (or not yet) the active master
+// answers ServerNotRunningYetException, as a backup master does.
+func (c *Cluster) ExecMaster(addr, kind string, ident any) OpResult {
+	c.curIdent = ident
+	defer func() { c.curIdent = nil }()
+	if c.Silent[addr] {
+		c.attempt(addr, "master", kind, "silent")
+		return OpResult{NoAnswer: true}
+	}
+	if cls, ok := c.pop(c.SrvScript, addr); ok {
+		c.attempt(addr, "master", kind, cls)
+		return OpResult{Class: cls, Stack: "scripted master exception"}
+	}
+	if addr != c.MasterAddr {
+		c.attempt(addr, "master", kind, ClsNotRunningYet)
+		return OpResult{Class: ClsNotRunningYet, Stack: addr + " is not the active master"}
+	}
+	c.attempt(addr, "master", kind, "ok")
+	c.Log = append(c.Log, Exec{Seq: len(c.Log) + 1, Server: addr, Region: "master", Kind: kind, Ident: ident, At: c.Now()})
+	return OpResult{}
+}
+
 // ExecCount returns how often the call with the given identity was executed.
 func (c *Cluster) ExecCount(ident any) int {
 	n := 0
